@@ -924,6 +924,8 @@ static void _GD_FlushFragment(DIRFILE* D, int i, int permissive)
   stream = fdopen(fd, "wb+");
   if (stream == NULL) {
     _GD_SetError(D, GD_E_IO, GD_E_IO_OPEN, NULL, 0, NULL);
+    close(fd);
+    gd_UnlinkAt(D, dirfd, temp_file, 0);
     dreturnvoid();
     return;
   }
